@@ -127,6 +127,10 @@ def check_topology(roots, detached=()):
     if any(rt is r for r in live) or any(d.sym_parent is n for n in _nodes(live, seen)):
       bad.append(('detached-still-child', f'removed/replaced {type(d).__name__} still reports a live tree as '
                   f'its parent/root (sym_path={d.sym_path!r})'))
+    elif d.sym_parent is None:
+      # what was removed is the root of a tree of its own: the paths in it start at that root
+      for clause, text in check_topology([d]):
+        bad.append((f'detached-{clause}', f'removed/replaced {type(d).__name__}: {text}'))
   return bad
 
 
@@ -253,7 +257,18 @@ def build_world(init):
 
 
 def mkval(world, tok):
-  """Decodes a value token into a (fresh or existing) value."""
+  """Decodes a value token into a (fresh or existing) value; fresh symbolic values are remembered in world['offered']."""
+  v = _mkval(world, tok)
+  if isinstance(v, pg.Insertion):
+    inner = v.value
+  else:
+    inner = v
+  if isinstance(inner, pg.Symbolic) and not (isinstance(tok, tuple) and tok[0] in ('node', 'det')):
+    world.setdefault('offered', []).append(inner)
+  return v
+
+
+def _mkval(world, tok):
   if isinstance(tok, tuple):
     if tok[0] == 'node':
       return resolve(world['roots'][tok[1]], tok[2])
@@ -261,7 +276,7 @@ def mkval(world, tok):
       d = world['detached']
       return d[tok[1]] if tok[1] < len(d) else pg.Dict(det=0)
     if tok[0] == 'ins':
-      return pg.Insertion(mkval(world, tok[1]))
+      return pg.Insertion(_mkval(world, tok[1]))
     raise ValueError(tok)
   if tok == 'pd':
     return {'x': 0}
@@ -279,7 +294,10 @@ def mkval(world, tok):
     # a fresh container built from ONE symbolic value used at several places (directly and inside plain containers)
     shared = pg.Dict(s=0)
     if tok == 'objdup':
-      return fixtures.Node(x=shared, items=[shared], d={'k': shared})
+      import collections
+      class _L(list):
+        pass
+      return fixtures.Node(x=shared, items=_L([shared, collections.OrderedDict(k=shared)]), d=collections.OrderedDict(k=shared))
     if tok == 'sddup':
       return pg.Dict(a=shared, b=[shared], c={'k': shared})
     return pg.List([shared, shared, {'k': shared}])
